@@ -1273,3 +1273,17 @@ def r11_open(text, *exprs):
         text, k = pat.subn(lambda m: 'vt_str_slice(%s, %s, vt_str_len(%s))' % (e, m.group(1), e), text)
         n += k
     return text, n
+
+
+@rule('R6_extend_ref')
+def r6_extend_ref(text):
+    """V.extend(&E);   ->   vt_extend_slice(&mut V, &E);      (Vec<u8>::extend over a borrowed byte vector / slice: appends it)"""
+    pat = re.compile(r'\b(%s)\.extend\(&((?:[^;()]|\((?:[^()]|\([^()]*\))*\))*?)\);' % IDENT)
+    return pat.subn(lambda m: 'vt_extend_slice(&mut %s, &%s);' % (m.group(1), m.group(2)), text)
+
+
+@rule('R6_extend_call')
+def r6_extend_call(text):
+    """V.extend(RECV.f(ARGS));   ->   vt_extend_vec(&mut V, RECV.f(ARGS));      (Vec<u32>::extend over an owned Vec: appends it)"""
+    pat = re.compile(r'\b(%s)\.extend\((%s(?:\.%s)*\((?:[^()]|\([^()]*\))*\))\);' % (IDENT, IDENT, IDENT))
+    return pat.subn(lambda m: 'vt_extend_vec(&mut %s, %s);' % (m.group(1), m.group(2)), text)
